@@ -89,6 +89,8 @@ type Broker struct {
 	HoldAcks bool
 	// AssignAliases: the automatic chunk ack assigns data id aliases for the ids listed in the chunk
 	AssignAliases bool
+	// FirstCloseErr: what Close of a client transport returns the first time (the transport is closed all the same)
+	FirstCloseErr error
 	// ResumeCodes: result codes for the next resume requests (then success)
 	ResumeCodes []message.ResultCode
 }
@@ -108,6 +110,7 @@ type cliTransport struct {
 	transport.ReadWriter
 	params transport.NegotiationParams
 	closed atomic.Bool
+	firstCloseErr error
 }
 
 // Close: like the QUIC and WebSocket transports, a second Close reports that the transport was closed already.
@@ -116,7 +119,10 @@ func (c *cliTransport) Close() error {
 		c.ReadWriter.Close()
 		return transport.ErrAlreadyClosed
 	}
-	return c.ReadWriter.Close()
+	if err := c.ReadWriter.Close(); err != nil {
+		return err
+	}
+	return c.firstCloseErr // e.g. a WebSocket whose dead peer never answers the close handshake: closed, and an error
 }
 
 func (c *cliTransport) AsUnreliable() (transport.UnreliableTransport, bool) { return nil, false }
@@ -194,7 +200,10 @@ func (b *Broker) dial(c transport.DialConfig) (transport.Transport, error) {
 	b.mu.Unlock()
 	go inc.writer()
 	go inc.reader(outcome == "cut")
-	return &cliTransport{ReadWriter: cliRaw, params: p}, nil
+	b.mu.Lock()
+	fce := b.FirstCloseErr
+	b.mu.Unlock()
+	return &cliTransport{ReadWriter: cliRaw, params: p, firstCloseErr: fce}, nil
 }
 
 func (i *Inc) writer() {
